@@ -37,6 +37,8 @@ type pProp struct {
 	accept  func(gp *genParser) bool
 	dkey    func(req *parsersim.Request, resp *parsersim.Response) string
 	restart int // restart the child process every so many cases (0: never)
+	// clockTwin: also build every -optimize-parser grammar without that flag
+	clockTwin bool
 	// collect sees every answered case (used to hand observations to a later pass).
 	collect func(batch int, gp *genParser, req *parsersim.Request, resp *parsersim.Response)
 	// post runs after the cases of a batch; it may add violations and statistics.
@@ -70,24 +72,41 @@ func runParserProp(pp *pProp, tier string) int {
 	for batch := 0; batch < nb; batch++ {
 		// every batch is an independent world built from its own sub-stream of the seed
 		r := newRng(seed, hashLabel(pp.id), uint64(batch))
-		var specs []*genParser
+		var specs, twins []*genParser
 		for i := 0; len(specs) < p.grammars && i < 20*p.grammars; i++ {
 			gp := drawSpec(r, fmt.Sprintf("p%03d", len(specs)), pp.bias)
 			if pp.accept != nil && !pp.accept(gp) {
 				continue
 			}
 			specs = append(specs, gp)
+			if pp.clockTwin && gp.Optimized {
+				// the same grammar generated without -optimize-parser: only that variant
+				// can report its expression count; it serves as the clock of the other
+				var tf []string
+				for _, f := range gp.Flags {
+					if f != "-optimize-parser" {
+						tf = append(tf, f)
+					}
+				}
+				tw := newGenParser(gp.Name+"t", gp.G, tf)
+				tw.ClockFor = gp.Name
+				gp.Twin = tw.Name
+				twins = append(twins, tw)
+			}
 		}
 		if pw != nil {
 			os.RemoveAll(pw.dir)
 			os.Remove(pw.bin)
 		}
-		pw = buildParserWorld(sc, pigeon, specs, pp.race)
+		pw = buildParserWorld(sc, pigeon, append(specs, twins...), pp.race)
 		grammars += len(pw.parsers)
 
 		var reqs []*parsersim.Request
 		var owner []*genParser
 		for _, gp := range pw.parsers {
+			if gp.ClockFor != "" {
+				continue // a clock twin gets no cases of its own
+			}
 			p.batch = batch
 			for _, rq := range pp.mkReqs(r, gp, p) {
 				if nb > 1 {
